@@ -42,10 +42,14 @@ type memConn struct {
 	armsTaken    int
 	writeDelay   time.Duration // the peer drains slowly: every Write blocks this long before its bytes are taken
 	resetAfter   int64         // >= 0: the peer resets the connection once it has received this many bytes in total (-1: never)
+	window       int64         // >= 0: the peer stops reading once it has received this many bytes in total: further writes block (-1: never)
+	wdeadline    time.Time     // write deadline set by the server
+	wstallAt     time.Time     // when a write first blocked on the closed window
+	wdeadlineHit bool          // a blocked write was ended by the write deadline
 }
 
 func newMemConn(id int, remote net.Addr) *memConn {
-	c := &memConn{id: id, resetAfter: -1, remote: remote, local: &net.TCPAddr{IP: net.IPv4(127, 0, 0, 1), Port: 38008}, t0: time.Now()}
+	c := &memConn{id: id, resetAfter: -1, window: -1, remote: remote, local: &net.TCPAddr{IP: net.IPv4(127, 0, 0, 1), Port: 38008}, t0: time.Now()}
 	c.cond = sync.NewCond(&c.mu)
 	return c
 }
@@ -98,6 +102,32 @@ func (c *memConn) Write(p []byte) (int, error) {
 	}
 	c.mu.Lock()
 	defer c.mu.Unlock()
+	taken := 0
+	for c.window >= 0 && c.written+int64(len(p)) > c.window {
+		// the peer does not read any more: what fits is taken, the rest waits - for ever, or until the write deadline
+		if k := int(c.window - c.written); k > 0 {
+			c.out = append(c.out, p[:k]...)
+			c.written += int64(k)
+			p = p[k:]
+			taken += k
+		}
+		if c.wstallAt.IsZero() {
+			c.wstallAt = time.Now()
+		}
+		if c.serverClosed {
+			return taken, net.ErrClosed
+		}
+		if c.clientReset {
+			return taken, errConnReset
+		}
+		if !c.wdeadline.IsZero() && !time.Now().Before(c.wdeadline) {
+			c.wdeadlineHit = true
+			return taken, os.ErrDeadlineExceeded
+		}
+		c.mu.Unlock()
+		time.Sleep(3 * time.Millisecond)
+		c.mu.Lock()
+	}
 	if c.serverClosed {
 		return 0, net.ErrClosed
 	}
@@ -144,8 +174,30 @@ func (c *memConn) Close() error {
 func (c *memConn) LocalAddr() net.Addr  { return c.local }
 func (c *memConn) RemoteAddr() net.Addr { return c.remote }
 
-func (c *memConn) SetDeadline(t time.Time) error      { return c.SetReadDeadline(t) }
-func (c *memConn) SetWriteDeadline(t time.Time) error { return nil }
+func (c *memConn) SetDeadline(t time.Time) error { return c.SetReadDeadline(t) }
+func (c *memConn) SetWriteDeadline(t time.Time) error {
+	c.mu.Lock()
+	c.wdeadline = t
+	c.mu.Unlock()
+	return nil
+}
+
+// SetWindow: the client will take k more bytes and then stop reading (a full socket buffer on both sides).
+func (c *memConn) SetWindow(k int64) {
+	c.mu.Lock()
+	c.window = c.written + k
+	c.mu.Unlock()
+}
+
+// WriteCutAfterMs: time from the first blocked write to the close of the connection, and whether a write deadline ended the write.
+func (c *memConn) WriteCutAfterMs() (int64, bool) {
+	c.mu.Lock()
+	defer c.mu.Unlock()
+	if c.wstallAt.IsZero() || c.closedAt.IsZero() {
+		return -1, false
+	}
+	return c.closedAt.Sub(c.wstallAt).Milliseconds(), c.wdeadlineHit
+}
 func (c *memConn) SetReadDeadline(t time.Time) error {
 	c.mu.Lock()
 	defer c.mu.Unlock()
